@@ -41,17 +41,18 @@ var c20Crash = []string{"panic:", "goroutine ", "SIGSEGV", "runtime error", "fat
 
 // c20Keywords: what the message must mention, per fault.
 var c20Keywords = map[string][]string{
-	"no-tty":             {"tty", "terminal"},
-	"listen-bad-syntax":  {"listen"},
-	"listen-port-bound":  {"listen", "address already in use"},
-	"listen-not-local":   {"listen", "cannot assign"},
-	"cache-empty":        {"certificate"},
-	"cache-cut":          {"certificate"},
-	"cache-garbage":      {"certificate"},
-	"cache-unwritable":   {"certificate"},
-	"log-parent-missing": {"logfile", "log file"},
-	"log-parent-is-file": {"logfile", "log file"},
-	"ctrl-i-missing":     {"ctrl+i"},
+	"no-tty":                   {"tty", "terminal"},
+	"listen-bad-syntax":        {"listen"},
+	"listen-port-bound":        {"listen", "address already in use"},
+	"listen-not-local":         {"listen", "cannot assign"},
+	"cache-empty":              {"certificate"},
+	"cache-cut":                {"certificate"},
+	"cache-garbage":            {"certificate"},
+	"cache-unwritable":         {"certificate"},
+	"cache-dir-takes-no-files": {"certificate"},
+	"log-parent-missing":       {"logfile", "log file"},
+	"log-parent-is-file":       {"logfile", "log file"},
+	"ctrl-i-missing":           {"ctrl+i"},
 }
 
 func binPath(name string) string {
@@ -96,6 +97,9 @@ func c20Args(c c20Case, dir string, goodCache []byte) (args []string, cleanup fu
 		case "cache-unwritable":
 			os.WriteFile(filepath.Join(dir, "afile"), []byte("x"), 0o600)
 			cache = filepath.Join(dir, "afile", "sub", "cert.txtar")
+		case "cache-dir-takes-no-files":
+			/* The directory exists, nothing can be created in it (not even by root). */
+			cache = "/proc/sys/kernel/curlrevshell-verif-cert.txtar"
 		case "log-parent-missing":
 			logf = filepath.Join(dir, "no", "such", "dir", "log.json")
 		case "log-parent-is-file":
@@ -311,7 +315,7 @@ func c20(r *ev.Result, tier string) {
 	/* A good cache file, to damage. */
 	good := c20GoodCache(base)
 
-	faults := []string{"listen-bad-syntax", "listen-port-bound", "listen-not-local", "cache-empty", "cache-cut", "cache-garbage", "cache-unwritable", "log-parent-missing", "log-parent-is-file", "ctrl-i-missing"}
+	faults := []string{"listen-bad-syntax", "listen-port-bound", "listen-not-local", "cache-empty", "cache-cut", "cache-garbage", "cache-unwritable", "cache-dir-takes-no-files", "log-parent-missing", "log-parent-is-file", "ctrl-i-missing"}
 	flags := []string{"", "-print-default-template", "-print-ctrl-i", "-h"}
 	group := func(f string) string { return strings.SplitN(f, "-", 2)[0] }
 	var cases []c20Case
